@@ -756,3 +756,98 @@ def gen_pieces(rng, opts, present_p=0.7, shuffle=True):
     s = Sentence()
     gen_sentence(rng, opts["p"], s, present_p)
     return pieces_of(rng, s, shuffle)
+
+
+# ---------------------------------------------------------------- one definition + line per arm of Message::render
+
+
+def _typo(rng, s):
+    """A near miss of `s` (edit distance 1..2): substitution, deletion, insertion, transposition."""
+    cs = list(s)
+    for _ in range(rng.choice([1, 1, 2])):
+        if not cs:
+            break
+        i = rng.randrange(len(cs))
+        op = rng.choice(["sub", "del", "ins", "swap"])
+        if op == "sub":
+            cs[i] = rng.choice("abcxyz0é")
+        elif op == "del" and len(cs) > 2:
+            del cs[i]
+        elif op == "ins":
+            cs.insert(i, rng.choice("abcxyz0é"))
+        elif op == "swap" and i + 1 < len(cs):
+            cs[i], cs[i + 1] = cs[i + 1], cs[i]
+    return "".join(cs)
+
+
+def message_cases(rng):
+    """(tag, options, argv, unset-variables): definitions and lines built to reach every arm of Message::render
+    (conflict, only-once, the four suggestion shapes, expected .. / got .., strict positions, no-env, no-argument with
+    and without a flag behind it, ambiguity, user texts), each next to a few ordinary items."""
+    names = Names(rng, unicode_ok=rng.random() < 0.3)
+    a, b, c = names.short(), names.short(), names.short()
+    la, lb, lc = names.long(), names.long(), names.long()
+    sa, sb = b"-" + a.encode(), b"-" + b.encode()
+    lna, lnb = b"--" + la.encode(), b"--" + lb.encode()
+    fa = req_flag(named([a], [la]))
+    fb = req_flag(named([b], [lb]))
+    sw = flag(named([c], [lc]))
+    argx = arg(named([names.short()], [names.long()]), "X", rng.choice(["string", "u32"]))
+    kx = b"--" + argx["n"]["long"][0].encode()
+    vx = b"7"
+    extra = rng.choice([[], [b"-" + c.encode()], [b"--" + lc.encode()]])
+    var = "BPAF_VT_M"
+    out = []
+
+    def add(tag, p, argv, unset=()):
+        out.append((tag, options(p, descr="Msg"), list(argv), list(unset)))
+
+    # two alternatives, both on the line
+    add("conflict", con(alt(fa, fb), sw), [rng.choice([sa, lna])] + extra + [rng.choice([sb, lnb])])
+    add("conflict-arg", con(alt(fa, argx), sw), [kx, vx] + extra + [sa])
+    # a single-use item twice
+    add("only-once", con(fa, sw), [rng.choice([sa, lna])] + extra + [rng.choice([sa, lna])])
+    add("only-once-arg", con(argx, sw), [kx, vx] + extra + [kx, b"8"])
+    # suggestions: one dash missing / one dash too many / near misses / an item of a subcommand
+    add("missing-dash", con(fa, sw), [b"-" + la.encode()] + extra)
+    add("extra-dash", con(fa, sw), [b"--" + a.encode()] + extra)
+    add("typo-long", con(wrap("optional", fa, catch=False), sw), [b"--" + _typo(rng, la).encode()] + extra)
+    cn = names.cmdname()
+    inner = req_flag(named([names.short()], [names.long()]))
+    sub = cmd(cn, options(con(inner), descr="Sub"))
+    add("typo-cmd", con(sw, sub), extra + [_typo(rng, cn).encode()])
+    add("nested", con(sw, sub), extra + [b"--" + inner["n"]["long"][0].encode()])
+    add("nested-cmd-missing", con(sw, sub), extra)
+    # expected ..: one, two, three or more alternatives; with and without a word that does not fit
+    p3 = names.long()
+    f3 = req_flag(named([], [p3]))
+    for tag, p in (("expected-1", con(fa, sw)), ("expected-2", con(alt(fa, fb), sw)), ("expected-3", con(alt(fa, fb, f3), sw))):
+        add(tag, p, extra)
+        add(tag + "-got", p, extra + [rng.choice([b"word", b"--unknown-zz", b"-Q"])])
+    add("expected-pos", con(sw, pos("FILE", "string")), extra)
+    add("no-arguments-got", con(wrap("optional", fa, catch=False)), [b"stray"])
+    # positions relative to `--`
+    add("strict", con(sw, pos("FILE", "string", strict="strict")), extra + [b"name"])
+    add("non-strict", con(sw, pos("FILE", "string", strict="nonstrict")), extra + [b"--", b"name"])
+    # only a variable, unset
+    add("no-env-arg", con(sw, arg(named([], [], [var]), "N", "u32")), extra, unset=[var.encode()])
+    add("no-env-flag", con(sw, req_flag(named([], [], [var]))), extra, unset=[var.encode()])
+    # a name without its value: at the end, before a flag, before `--`
+    add("no-argument", con(argx, sw), extra + [kx])
+    add("no-argument-flag", con(argx, sw), [kx] + [rng.choice([b"-" + c.encode(), b"--" + lc.encode()])])
+    add("no-argument-dd", con(argx, sw), [kx, b"--"])
+    # a short name that is a flag and an argument
+    amb = named([a], [])
+    add("ambiguity", con(alt(req_flag(amb), arg(named([a], []), "V", "string")), sw), [b"-" + a.encode() + c.encode()])
+    # the user's own texts
+    add("some", con(wrap("some", fa, msg=rng.choice(["need at least one", "", "ünï"]), catch=False), sw), extra)
+    add("fail", con(sw, {"k": "fail", "msg": rng.choice(["always fails", "nö"])}), extra)
+    add("fallback-with-err", con(sw, wrap("fallback-with", fa, r="(err %s)" % hx("fallback failed"))), extra)
+    # conversion / guard / parse texts, separated and attached
+    num = arg(named([names.short()], [names.long()]), "N", "u32")
+    kn = b"--" + num["n"]["long"][0].encode()
+    add("convert", con(num, sw), extra + [kn, rng.choice([b"x", b"", b"-1", b"99999999999"])] if rng.random() < 0.5
+        else extra + [kn + b"=" + rng.choice([b"x", b"", b"1.5"])])
+    add("guard", con(wrap("guard", num, menu=2, msg="must be < 10"), sw), extra + [kn, b"55"])
+    add("parse", con(wrap("parse", num, menu=3, txt="too big"), sw), extra + [kn, b"777"])
+    return out
